@@ -206,6 +206,9 @@ type Hooks struct {
 	Deref     func(x *Exec, s *State, in ssa.Instruction, ptr Value) // load/field access through a possibly-nil pointer
 	Inline    func(callee *ssa.Function, depth int) bool
 	Enter     func(x *Exec, s *State, fn *ssa.Function)
+	BackEdge  func(x *Exec, s *State, f *Frame, header *ssa.BasicBlock) // a loop iteration of frame f ended
+	// Decide is told every time a branch narrows an atom (outs = outcomes still possible).
+	Decide func(x *Exec, s *State, atom string, outs []string)
 	Instr     func(x *Exec, s *State, in ssa.Instruction)
 }
 
@@ -261,11 +264,19 @@ func (x *Exec) problem(format string, a ...interface{}) {
 func (x *Exec) NewState(root *ssa.Function, params []Value, binds []Value) *State {
 	s := &State{Heap: map[string]Value{}, PC: map[string]uint16{}, Gens: map[string]int{}}
 	f := &Frame{Fn: root, Env: map[ssa.Value]Value{}, Ctx: "r", Visits: map[int]int{}, PhiOld: map[ssa.Value]string{}, Loops: map[int]*loopSnap{}}
+	if x.KeepSyms == nil {
+		x.KeepSyms = map[string]bool{}
+	}
 	for i, p := range root.Params {
 		if i < len(params) && params[i] != nil {
 			f.Env[p] = params[i]
 		} else {
 			f.Env[p] = Sym{Name: p.Name()}
+		}
+		tmp := map[string]bool{}
+		symsIn(f.Env[p].Key(), tmp)
+		for n := range tmp {
+			x.KeepSyms[n] = true
 		}
 	}
 	for i, fv := range root.FreeVars {
@@ -936,6 +947,10 @@ func (x *Exec) branch(s *State, cond Value) (tS, fS *State) {
 	t.Path = append(t.Path, at.Name+"→T")
 	s.PC[at.Name] = fmask
 	s.Path = append(s.Path, at.Name+"→F")
+	if x.Hooks.Decide != nil {
+		x.Hooks.Decide(x, t, at.Name, x.Possible(t, at.Name))
+		x.Hooks.Decide(x, s, at.Name, x.Possible(s, at.Name))
+	}
 	return t, s
 }
 
@@ -982,6 +997,9 @@ func (x *Exec) enterBlock(s *State, pred, b *ssa.BasicBlock, first bool) {
 	if pred != nil && isLoopHeader(b) {
 		if b.Dominates(pred) {
 			// back edge
+			if x.Hooks.BackEdge != nil {
+				x.Hooks.BackEdge(x, s, f, b)
+			}
 			if snap := f.Loops[b.Index]; snap != nil {
 				snap.iters++
 				if snap.iters > x.Unroll {
@@ -1168,12 +1186,41 @@ func (x *Exec) prunePC(s *State) {
 		}
 		symsIn(k, tmp)
 		for n := range tmp {
-			if !live[n] && !x.KeepSyms[n] {
+			if !live[n] && !x.keepSym(n) {
 				delete(s.PC, k)
 				break
 			}
 		}
 	}
+}
+
+// keepSym: facts about the root's parameters and about the initial contents of
+// memory reachable from them (or from its captured variables) are never pruned.
+func (x *Exec) keepSym(n string) bool {
+	if x.KeepSyms[n] {
+		return true
+	}
+	if strings.HasPrefix(n, "@") {
+		loc, ok := x.LocOf[n[1:]]
+		if !ok {
+			return false
+		}
+		if strings.HasPrefix(loc, "fv:") {
+			return true
+		}
+		tmp := map[string]bool{}
+		symsIn(loc, tmp)
+		if len(tmp) == 0 {
+			return false
+		}
+		for m := range tmp {
+			if m == n || !x.keepSym(m) {
+				return false
+			}
+		}
+		return true
+	}
+	return false
 }
 
 // headKey identifies a loop head by position and property state only.
